@@ -101,6 +101,9 @@ def empty_slash_left(t):
 
 def item_trees(items):
     for _, it in items:
+        if it[0] == "par1":
+            yield it[1]
+            continue
         if it[0] == "grp":
             if it[2] is not None:
                 yield it[2]
@@ -266,6 +269,12 @@ def _placement_cases(quick):
                 if any(sg == "-" and it[0] == "lit" and it[1] != "1" for sg, it in items):
                     continue  # '- 0' and '- -1' are not documented
                 yield [[s, it] for s, it in items]
+    # 1b) an explicit `1` inside a parenthesised sum, after the intercept was removed or not
+    for t in small[:12]:
+        for pre in ([], [["+", ("lit", "0")]], [["+", ("var", "b")], ["-", ("lit", "1")]], [["+", ("lit", "-1")], ["+", ("var", "a")]]):
+            yield pre + [["+", ("par1", t)]]
+            yield pre + [["+", ("var", "b")], ["+", ("par1", t)]]
+            yield pre + [["+", ("par1", t)], ["-", ("par1", t)]]
     # 2) group items
     effects = [None] + (small if not quick else small[:20])
     for lead in (None, "0", "1", "-1"):
@@ -310,13 +319,15 @@ def _random_case(max_leaves):
         n = draw(st.integers(1, 4))
         items = []
         for i in range(n):
-            kind = draw(st.sampled_from(["tree", "tree", "tree", "lit", "grp"]))
+            kind = draw(st.sampled_from(["tree", "tree", "tree", "lit", "grp", "par1"]))
             sign = "+" if i == 0 else draw(st.sampled_from(["+", "+", "-"]))
             if kind == "lit":
                 lit = draw(st.sampled_from(["0", "1", "-1"]))
                 if sign == "-":
                     lit = "1"
                 items.append([sign, ("lit", lit)])
+            elif kind == "par1":
+                items.append([sign, ("par1", draw(tree_strategy(pool, 4)))])
             elif kind == "grp":
                 lead = draw(st.sampled_from([None, None, "0", "1", "-1"]))
                 e = draw(st.one_of(st.none(), tree_strategy(pool, 4))) if lead == "1" else draw(tree_strategy(pool, 4))
